@@ -5,7 +5,7 @@ rc_bin("c03_thr", ["harness/batch_thr.cc"], lib=True, defines=['VH_PROP_ID=\\"C0
 rc_bin("c03_thr_tsan", ["harness/batch_thr.cc"], lib=True, san="tsan", defines=['VH_PROP_ID=\\"C03\\"'])
 PROPS["C03"] = dict(
     level_text="Same schedule-controlled engine: the exporter keeps an in-flight counter (never above 1 per exporter instance, with a yield/virtual sleep inside Export to invite overlap) and every delivered batch must hold 1..max_export_batch_size records, including histories with a ForceFlush before later production and the shutdown drain path.",
-    technique="generated schedules over a deterministic scheduler shim (rapidcheck choice streams) + history-invariant oracle",
+    technique="generated schedules (weighted/uniform/PCT) over a deterministic scheduler shim (rapidcheck choice streams) + history-invariant oracle + simple processors and periodic reader under the same shim + real-thread stress under ASan and TSan",
     rule="A case = (processor configuration, thread programs, exporter behaviour, schedule).",
     assumptions=SCHED_ASSUMPTIONS + [SC_NOTE],
     runs=[
